@@ -42,6 +42,26 @@ type caseData struct {
 	Tmpl    string            `json:"tmpl,omitempty"`
 	Params  any               `json:"params,omitempty"`
 	Outcome string            `json:"outcome,omitempty"`
+	// WantValue: the only values the script's return statements can produce
+	// ("" = unknown): "done" = exactly the string "done", "string" = any string.
+	WantValue string `json:"want_value,omitempty"`
+}
+
+// valueOK: a returned value must be one the script can return (the templates
+// have a single top-level return statement). Anything else means Run stopped
+// somewhere else without reporting an error: the panic was neither delivered
+// to a handler nor returned.
+func (c *caseData) valueOK(r result) bool {
+	if r.class != "value" {
+		return true
+	}
+	switch c.WantValue {
+	case "done":
+		return r.val == `s"done"`
+	case "string":
+		return strings.HasPrefix(r.val, `s"`)
+	}
+	return true
 }
 
 // ------------------------------------------------------------------ execution
@@ -360,6 +380,12 @@ func judge(c *caseData) verdict {
 		return v
 	}
 
+	if !c.valueOK(r1) {
+		v.sig = "lost-panic:value-not-from-script"
+		v.what = fmt.Sprintf("VM.Run returned %s, a value no return statement of the script can produce (want %s): the run ended without the error being delivered to a handler or returned\nlog=%v\n%s", r1, c.WantValue, r1.log, describe(c))
+		return v
+	}
+
 	// the same VM must still work: fixed probe script
 	vm.SetBytecode(probeBC)
 	rp := execVM(vm, ugo.Map{}, nil, nil)
@@ -392,6 +418,10 @@ func judge(c *caseData) verdict {
 	case r2.class == "nil":
 		v.sig = "nil-result"
 		v.what = "VM.Run returned (nil, nil) on the re-run\n" + describe(c)
+		return v
+	case !c.valueOK(r2):
+		v.sig = "lost-panic:value-not-from-script:rerun"
+		v.what = fmt.Sprintf("re-run on the same VM returned %s, a value no return statement of the script can produce (want %s; first run: %s)\n%s", r2, c.WantValue, r1, describe(c))
 		return v
 	case r2.key() != r1.key():
 		v.sig = "reuse-broken:rerun-after-" + r1.class
